@@ -5,7 +5,7 @@
    Proofs: Gate.v, Conv.v, Defaults.v, Ignored.v, Inventory.v. *)
 From Coq Require Import List NArith Bool.
 Import ListNotations.
-Require Import Base.Wire Base.PyStr C03.Model C03.Anti C01.Model C01.Denial C01.Voice C01.Gate C01.Conv C01.Defaults C01.Ignored C01.Inventory.
+Require Import Base.Wire Base.PyStr C03.Model C03.Anti C01.Model C01.Denial C01.Voice C01.ConfigChan C01.Gate C01.Conv C01.Defaults C01.Ignored C01.Inventory.
 Require gen.T01.
 
 (* If the body of a command runs, then for every name n the gate asks about -- the last word Y,
@@ -76,6 +76,22 @@ Theorem C01_voice :
      exists cap, makeChannelCapability channel OP = Ok cap /\ holds d cap = Ok true).
 Proof. exact voice_gate. Qed.
 Print Assumptions C01_voice.
+
+(* `config channel [<network>] #a,#b,... <name> <value>`: a channel-specific value is written only for a listed channel
+   the caller is authorised for (<channel>,op; owner when the variable is not op-settable) -- whatever its position in the list *)
+Theorem C01_config_channel :
+  forall d opset ro netspec channels ch n,
+    In (CWrite ch n) (config_channel_set d opset ro netspec channels) ->
+    In ch channels /\ authorised d opset ch.
+Proof. exact config_channel_checked. Qed.
+Print Assumptions C01_config_channel.
+
+Theorem C01_config_channel_unauthorised :
+  forall d opset ro netspec channels ch cap,
+    config_cap opset ch = Ok cap -> holds d cap = Ok false ->
+    forall n, ~ In (CWrite ch n) (config_channel_set d opset ro netspec channels).
+Proof. exact config_channel_unauthorised. Qed.
+Print Assumptions C01_config_channel_unauthorised.
 
 (* If the body runs, every gating converter at a top-level position of the spec asked for its
    capability (in the state the preceding converters left) and was answered True. *)
